@@ -47,12 +47,13 @@ impl EnumSrc {
 const DERIVE_ITEMS: &[&str] = &[
     "Debug", "Clone", "Copy", "PartialEq", "Eq", "Hash", "thiserror::Error", "::core::fmt::Debug", "std::clone::Clone", "serde::Serialize", "core::cmp::PartialEq", "my_crate::derive::Thing",
 ];
-const LOGOS_DERIVES: &[&str] = &["Logos", "Logos", "Logos", "logos::Logos", "::logos::Logos"];
+// the derive under its own name, path-qualified, and through a renamed / re-exported crate path
+const LOGOS_DERIVES: &[&str] = &["Logos", "Logos", "Logos", "logos::Logos", "::logos::Logos", "lexer::Logos", "deps::logos::Logos", "crate::reexports::Logos", "lg::Logos"];
 const OUTER_OTHER: &[&str] = &[
     "/// A token.", "#[repr(u8)]", "#[allow(dead_code)]", "#[cfg_attr(test, derive(PartialOrd))]", "#[doc = \"second\"]", "#[non_exhaustive]", "#[serde(tag = \"t\")]",
     "#[derive()]", "#[must_use]", "#[error(\"unexpected token\")]", "#[extras_like(u8)]", "#[tokens(all)]",
 ];
-const OUTER_LOGOS: &[&str] = &["#[logos(skip r\"[ \\t]+\")]", "#[logos(extras = u32)]", "#[logos(error = MyErr)]", "#[logos(subpattern d = \"[0-9]\")]"];
+const OUTER_LOGOS: &[&str] = &["#[logos(skip r\"[ \\t]+\")]", "#[logos(extras = u32)]", "#[logos(error = MyErr)]", "#[logos(subpattern d = \"[0-9]\")]", "#[logos(crate = lexer)]"];
 const VAR_OTHER: &[&str] = &["/// doc", "#[cfg(all())]", "#[serde(rename = \"x\")]", "#[allow(unused)]", "#[doc(hidden)]", "#[deprecated]", "#[error(\"bad\")]", "#[regexp(\"x\")]", "#[my::token(\"t\")]"];
 const FIELD_ATTRS: &[&str] = &["", "", "#[allow(unused)] ", "#[doc = \"f\"] ", "#[cfg(all())] ", "#[serde(skip)] ", "#[logos(nothing)] ", "#[regex(\"zz\")] "];
 
@@ -435,9 +436,12 @@ pub fn c16_cli(args: &Args, run: &mut Run, sources: &[String]) -> Option<serde_j
         let dir = model::run::root().join(format!("work/cli-scratch/c16-{name}"));
         std::fs::create_dir_all(&dir).unwrap();
         let cli = Cli { bin, dir: dir.clone() };
+        // the first source (the only one on replay) finds a longer file of some earlier generation at the output path
+        std::fs::write(dir.join("out.gen.rs"), "// output of an earlier run\n".repeat(4000)).unwrap();
         for src in sources {
             std::fs::write(dir.join("input.rs"), src).unwrap();
-            let _ = std::fs::remove_file(dir.join("out.gen.rs"));
+            // out.gen.rs keeps the output of the previous source (longer or shorter than this one): the result of a
+            // run must not depend on what the output path held before
             let (c1, o1, e1) = cli.run(&["input.rs"]);
             let (c2, o2, _) = cli.run(&["input.rs"]);
             let (c3, o3, _) = cli.run(&["input.rs"]);
@@ -456,6 +460,15 @@ pub fn c16_cli(args: &Args, run: &mut Run, sources: &[String]) -> Option<serde_j
             if cw != 0 || cc != 0 {
                 return Some(json!({"property": "C16", "tier": "L", "generator": name, "source": src, "findings": [{"property": "C16", "what": format!("--check fails (exit {cc}) right after writing the output (exit {cw}): generation is not reproducible")}]}));
             }
+            let _ = std::fs::remove_file(dir.join("fresh.gen.rs"));
+            let (cf, _, _) = cli.run(&["input.rs", "--output", "fresh.gen.rs"]);
+            run.eval(1);
+            let with_history = std::fs::read(dir.join("out.gen.rs")).unwrap_or_default();
+            let fresh = std::fs::read(dir.join("fresh.gen.rs")).unwrap_or_default();
+            if cf != 0 || with_history != fresh {
+                return Some(json!({"property": "C16", "tier": "L", "generator": name, "source": src, "findings": [{"property": "C16", "what": format!("the file written over the previous source's output ({} bytes) differs from the file written to a fresh path ({} bytes, exit {cf}) for the same input", with_history.len(), fresh.len())}]}));
+            }
+            run.count("cli_outputs_written_over_previous_output", 1);
             run.nontrivial(fnv(format!("{name}{src}").as_bytes()));
         }
     }
